@@ -32,6 +32,42 @@ def norm(t):
     return "".join(t.split())
 
 
+ROUTE = [
+    (r"ifletSome\(generic_rule\)=rule\.hidden_generic_rule\(\)\{self\.add_generic_filter\(generic_rule\);\}", "R_add_generic_hidden"),
+    (r"self\.specific_rules\.store_rule\(rule\);", "R_store_specific"),
+    (r"self\.add_generic_filter\(rule\);", "R_add_generic_self"),
+]
+
+
+def generate_route(b, die):
+    raw = _bs.fn_body(b, r"pub fn add_filter\(&mut self, rule: CosmeticFilter\)\s*\{", die)
+    st = _bs.statements(raw, die)
+    if len(st) != 1 or st[0][0] != "if" or len(st[0][1]) != 1 or st[0][2] is None:
+        die("CosmeticFilterCache::add_filter: not one if/else")
+    cond, then = st[0][1][0]
+    if norm(cond) != "rule.has_hostname_constraint()":
+        die("CosmeticFilterCache::add_filter: condition %r" % cond)
+
+    def acts(block):
+        t = norm(block)
+        out = []
+        while t:
+            for rx, name in ROUTE:
+                m = re.match(rx, t)
+                if m:
+                    out.append(name)
+                    t = t[m.end():]
+                    break
+            else:
+                die("CosmeticFilterCache::add_filter: statement not recognised at %r" % t[:120])
+        return out
+    return ["Module RouteGen.",
+            "Inductive raction := R_add_generic_hidden | R_store_specific | R_add_generic_self.",
+            "Definition constrained : list raction := [%s]." % "; ".join(acts(then)),
+            "Definition unconstrained : list raction := [%s]." % "; ".join(acts(st[0][2])),
+            "End RouteGen."]
+
+
 def generate(src, die, coq_str):
     b = _bs.strip_comments(src("src/cosmetic_filter_cache.rs"))
     t = norm(_bs.fn_body(b, r"pub fn hostname_cosmetic_resources\(\s*&self,\s*resources: &ResourceStorage,\s*hostname: &str,\s*generichide: bool,\s*\)\s*->\s*UrlSpecificResources\s*\{", die))
@@ -110,4 +146,4 @@ def generate(src, die, coq_str):
             "Definition pass2_after_all_of_pass1 : bool := true.",
             "Definition generichide_answer : string := \"specific_hide_selectors\".",
             "Definition default_answer : string := \"misc_generic_selectors-exceptions+specific_hide_selectors\".",
-            "End ResGen."]
+            "End ResGen."] + generate_route(b, die)
